@@ -21,6 +21,7 @@
 #include <cstdlib>
 #include <cstring>
 #include <map>
+#include <mutex>
 #include <string>
 #include <utility>
 #include <vector>
@@ -40,9 +41,18 @@ inline std::vector<verif_region>& verif_live_regions()
   return regions;
 }
 
+// the harness's own registry is shared by all instances: its accesses are serialised (C18 drives
+// distinct instances from distinct threads)
+inline std::mutex& verif_regions_mutex()
+{
+  static std::mutex m;
+  return m;
+}
+
 inline int verif_region_of(const void* p)
 {
   auto a = reinterpret_cast<uintptr_t>(p);
+  std::lock_guard<std::mutex> g(verif_regions_mutex());
   auto& rs = verif_live_regions();
   for (size_t i = 0; i < rs.size(); i++) {
     if (a >= rs[i].base && a - rs[i].base < rs[i].size) {
@@ -145,7 +155,7 @@ public:
   int lookups = 0;                    // number of impl_lookup_symbol calls
   // drivers set this before create_sandbox so that the region base is a known
   // constant (the Coq model computes with absolute addresses, mod 2^64)
-  static inline uintptr_t fixed_base_hint = 0;
+  static inline thread_local uintptr_t fixed_base_hint = 0;
 
   uintptr_t region_base() const { return base; }
 
@@ -177,17 +187,23 @@ protected:
     mprotect(reinterpret_cast<void*>(base + Cfg::region_size - PAGE), PAGE,
              PROT_READ | PROT_WRITE);
     bump = 16;
-    verif_live_regions().push_back(verif_region{ base, Cfg::region_size, this });
+    {
+      std::lock_guard<std::mutex> g(verif_regions_mutex());
+      verif_live_regions().push_back(verif_region{ base, Cfg::region_size, this });
+    }
     return true;
   }
 
   inline void impl_destroy_sandbox()
   {
-    auto& rs = verif_live_regions();
-    for (size_t i = 0; i < rs.size(); i++) {
-      if (rs[i].owner == this) {
-        rs.erase(rs.begin() + static_cast<long>(i));
-        break;
+    {
+      std::lock_guard<std::mutex> g(verif_regions_mutex());
+      auto& rs = verif_live_regions();
+      for (size_t i = 0; i < rs.size(); i++) {
+        if (rs[i].owner == this) {
+          rs.erase(rs.begin() + static_cast<long>(i));
+          break;
+        }
       }
     }
     munmap(reinterpret_cast<void*>(map_start), map_len);
